@@ -19,6 +19,10 @@
 #include <ompl/base/spaces/SE2StateSpace.h>
 #include <ompl/base/spaces/DubinsStateSpace.h>
 #include <ompl/base/spaces/ReedsSheppStateSpace.h>
+#include <ompl/base/spaces/OwenStateSpace.h>
+#include <ompl/base/spaces/VanaStateSpace.h>
+#include <ompl/base/spaces/VanaOwenStateSpace.h>
+#include <ompl/base/spaces/Dubins3DMotionValidator.h>
 #include <ompl/util/Console.h>
 #include <cmath>
 #include <memory>
@@ -89,7 +93,7 @@ struct Recorder : ob::StateValidityChecker
 struct Binding
 {
     std::string name;
-    std::string family{"discrete"};  // which validator runs: discrete | dubins | reedsshepp
+    std::string family{"discrete"};  // which validator runs: discrete | dubins | reedsshepp | dubins3d
     ob::StateSpacePtr space;
     ob::SpaceInformationPtr si;
     std::shared_ptr<Recorder> rec;
@@ -102,7 +106,7 @@ struct Binding
     ob::State *s1{nullptr}, *s2{nullptr}, *sentinel{nullptr}, *out{nullptr}, *tmp{nullptr};
     int nd{0};
     double maxDev{0};
-    long replayed{0}, skipped{0}, orderLin{0}, orderBis{0};
+    long replayed{0}, skipped{0}, orderLin{0}, orderBis{0}, statesReplayed{0}, mismatch{0};
 
     void finish()
     {
@@ -299,6 +303,57 @@ static std::shared_ptr<Binding> makeSE2Like(const std::string &name, const std::
     return b;
 }
 
+// 3D Dubins airplane spaces (Owen, Vana, Vana-Owen; Dubins3DMotionValidator): straight level
+// flight along +x from `start` (x, y, z, [pitch,] yaw); every other coordinate stays put
+template <class Space>
+static std::shared_ptr<Binding> makeStraight3D(const std::string &name)
+{
+    auto b = std::make_shared<Binding>();
+    b->name = name;
+    b->family = "dubins3d";
+    auto sp = std::make_shared<Space>();
+    ob::RealVectorBounds bounds(3);
+    bounds.setLow(0, -8);
+    bounds.setHigh(0, 120);
+    bounds.setLow(1, -64);
+    bounds.setHigh(1, 64);
+    bounds.setLow(2, -10);
+    bounds.setHigh(2, 10);
+    sp->setBounds(bounds);
+    sp->setLongestValidSegmentFraction(1.0 / 64);
+    b->space = sp;
+    b->sentinelValue = -7.75;
+    Binding *p = b.get();
+    auto par = std::make_shared<std::pair<std::vector<double>, double>>();  // start reals, d
+    b->setPair = [p, par](int nd, ob::State *a, ob::State *c) {
+        std::vector<double> r(p->space->getDimension(), 0.0);
+        r[0] = 1.0;
+        r[1] = 0.25;
+        r[2] = 0.5;
+        double d = nd == 0 ? 0.0 : (nd - 0.5) * p->space->getLongestValidSegmentLength();
+        par->first = r;
+        par->second = d;
+        p->space->copyFromReals(a, r);
+        r[0] += d;
+        p->space->copyFromReals(c, r);
+    };
+    b->coord = [p, par](const ob::State *s, double &off) {
+        std::vector<double> r;
+        p->space->copyToReals(r, s);
+        off = 0;
+        for (std::size_t i = p->nd == 0 ? 0 : 1; i < r.size(); ++i)
+        {
+            double d = std::fabs(r[i] - par->first[i]);
+            off = std::max(off, i >= 3 ? std::min(d, std::fabs(d - 2 * PI)) : d);
+        }
+        return p->nd == 0 ? 0.0 : (r[0] - par->first[0]) / par->second * p->nd;
+    };
+    b->finish();
+    if (dynamic_cast<const ob::Dubins3DMotionValidator<Space> *>(b->si->getMotionValidator().get()) == nullptr)
+        framework("binding " + name + " does not run Dubins3DMotionValidator");
+    return b;
+}
+
 // weighted compound of two R^1: the count is the maximum of the components' counts, whatever the
 // weights.  lead = which component decides
 static std::shared_ptr<Binding> makeCompound(const std::string &name, int lead)
@@ -363,9 +418,14 @@ static std::vector<std::shared_ptr<Binding>> allBindings()
     v.push_back(makeSE2Like("dubins-symmetric-reversed", std::make_shared<ob::DubinsStateSpace>(1.0, true), 3));
     v.push_back(makeSE2Like("reedsshepp", std::make_shared<ob::ReedsSheppStateSpace>(1.0), 2));
     v.push_back(makeSE2Like("reedsshepp-backwards", std::make_shared<ob::ReedsSheppStateSpace>(1.5), 3));
+    const std::size_t n2d = v.size();
+    v.push_back(makeStraight3D<ob::OwenStateSpace>("owen"));
+    v.push_back(makeStraight3D<ob::VanaStateSpace>("vana"));
+    v.push_back(makeStraight3D<ob::VanaOwenStateSpace>("vanaowen"));
     // the validators the property names must really be the ones under test
-    for (auto &b : v)
+    for (std::size_t i = 0; i < n2d; ++i)
     {
+        auto &b = v[i];
         const ob::MotionValidator *mv = b->si->getMotionValidator().get();
         if (b->name.rfind("dubins", 0) == 0)
             b->family = "dubins";
@@ -383,13 +443,16 @@ static std::vector<std::shared_ptr<Binding>> allBindings()
 // ------------------------------------------------------------------------------------------
 struct Failures
 {
+    // one entry per (binding, clause); the check groups them by (family, clause)
     std::map<std::string, long> count;
     std::map<std::string, json> first;
-    void add(const std::string &key, const std::string &why, const json &cs, const std::string &binding)
+    void add(const std::string &binding, const std::string &family, const std::string &clause, const std::string &why,
+             const json &cs)
     {
+        const std::string key = binding + "|" + clause;
         if (count[key]++ == 0)
         {
-            json f{{"key", key}, {"why", why}, {"binding", binding}, {"case", cs}};
+            json f{{"key", key}, {"why", why}, {"binding", binding}, {"family", family}, {"clause", clause}, {"case", cs}};
             first[key] = f;
             std::cout << "FAIL " << f.dump() << std::endl;
         }
@@ -450,8 +513,14 @@ static void runMotion(Binding &b, const json &cs, Failures &F, Vacuity &V)
     b.setPair(nd, b.s1, b.s2);
     const unsigned real = b.space->validSegmentCount(b.s1, b.s2);
     if ((int)real != nd)
-        framework("binding " + b.name + ": validSegmentCount is " + std::to_string(real) + " where the pair was built for " +
-                  std::to_string(nd));
+    {
+        // not a verdict of this replay: the pair does not realize the case.  Counted; the check turns it
+        // into a framework error unless the segment-count stage has already reported the rule broken
+        if (b.mismatch++ == 0)
+            std::cout << "NOTE binding " << b.name << ": validSegmentCount is " << real << " where the pair was built for "
+                      << nd << std::endl;
+        return;
+    }
     b.rec->ok.assign(nd + 1, 0);
     b.rec->ok[0] = 1;
     bool endValid = nd == 0;
@@ -463,7 +532,21 @@ static void runMotion(Binding &b, const json &cs, Failures &F, Vacuity &V)
     }
     const std::string sit = expVerdict ? "valid" : endValid ? "mid-invalid" : "end-invalid";
     const ob::MotionValidatorPtr &mv = b.si->getMotionValidator();
-    auto fail = [&](const std::string &clause, const std::string &why) { F.add(b.name + "|" + clause, why, cs, b.name); };
+    std::set<std::string> failedLin;  // clauses the call with storage already failed
+    auto fail = [&](const std::string &clause, const std::string &why) {
+        const std::string tag = "lin-nullptr";
+        std::size_t at = clause.find(tag);
+        if (at != std::string::npos)
+        {
+            std::string base = clause;
+            base.replace(at, tag.size(), "lin");
+            if (failedLin.count(base))
+                return;  // same clause, same reason: reported once, for the call with storage
+        }
+        else
+            failedLin.insert(clause);
+        F.add(b.name, b.family + "-validator", clause, why, cs);
+    };
     auto checkQueries = [&](const std::string &form, bool verdict) {
         std::set<int> seen;
         for (int i : b.rec->q)
@@ -487,10 +570,10 @@ static void runMotion(Binding &b, const json &cs, Failures &F, Vacuity &V)
     auto checkCounters = [&](const std::string &form, unsigned v0, unsigned i0) {
         unsigned dv = mv->getValidMotionCount() - v0, di = mv->getInvalidMotionCount() - i0;
         bool ok = expCtr == "valid" ? (dv == 1 && di == 0) : (dv == 0 && di == 1);
-        if (!ok)  // keyed by the validator, not by the pose pair that happened to show it
-            F.add(b.family + "-validator|counters:" + form + ":" + sit + ":+" + std::to_string(dv) + "+" + std::to_string(di),
-                  "one call must advance exactly the " + expCtr + " counter by one; valid +" + std::to_string(dv) +
-                      ", invalid +" + std::to_string(di), cs, b.name);
+        if (!ok)
+            fail("counters:" + form + ":" + sit + ":+" + std::to_string(dv) + "+" + std::to_string(di),
+                 "one call must advance exactly the " + expCtr + " counter by one; valid +" + std::to_string(dv) +
+                     ", invalid +" + std::to_string(di));
     };
     auto checkReport = [&](const std::string &form, bool verdict, const std::pair<ob::State *, double> &lv) {
         if (verdict != expVerdict)
@@ -585,7 +668,7 @@ static void runList(Binding &b, const json &cs, Failures &F, Vacuity &V, long &r
     const int count = cs["nd"].get<int>();
     const bool expVerdict = cs["exp"]["verdict"].get<bool>();
     const int expFirst = cs["exp"]["first"].get<int>();
-    auto fail = [&](const std::string &clause, const std::string &why) { F.add("list|" + clause, why, cs, "list"); };
+    auto fail = [&](const std::string &clause, const std::string &why) { F.add("list", "state-list", clause, why, cs); };
     // the motion 0 -> count-1 in R^1 has its count states at the integers
     b.nd = std::max(count - 1, 0);
     b.setPair(b.nd, b.s1, b.s2);
@@ -667,7 +750,9 @@ static void runStates(Binding &b, const json &cs, Failures &F, long &replayed)
     const bool endpoints = cs["endpoints"].get<bool>();
     const int den = cs["den"].get<int>();
     const std::vector<int> num = cs["num"].get<std::vector<int>>();
-    auto fail = [&](const std::string &clause, const std::string &why) { F.add("states:" + b.name + "|" + clause, why, cs, b.name); };
+    auto fail = [&](const std::string &clause, const std::string &why) {
+        F.add(b.name, "getMotionStates", "getMotionStates:" + clause, why, cs);
+    };
     // a motion with den lattice steps in this binding: the states asked for are its points num[k]
     if (!b.applies(den))
         return;
@@ -720,6 +805,7 @@ static void runStates(Binding &b, const json &cs, Failures &F, long &replayed)
         b.si->freeStates(st);
     }
     ++replayed;
+    ++b.statesReplayed;
 }
 
 static int replay(const std::string &path, const std::string &only)
@@ -767,11 +853,17 @@ static int replay(const std::string &path, const std::string &only)
         else
             framework("unknown case kind " + k);
     }
-    json per = json::object();
+    json per = json::object(), families = json::object();
     long scenarios = listReplayed + statesReplayed;
+    families["state-list"] = json::array({"list"});
+    families["getMotionStates"] = json::array();
     for (auto &b : bindings)
     {
-        per[b->name] = json{{"replayed", b->replayed}, {"not_applicable", b->skipped}, {"order_as_model_lin", b->orderLin},
+        if (b->replayed)
+            families[b->family + "-validator"].push_back(b->name);
+        if (b->statesReplayed)
+            families["getMotionStates"].push_back(b->name);
+        per[b->name] = json{{"replayed", b->replayed}, {"family", b->family}, {"segment_count_mismatch", b->mismatch}, {"not_applicable", b->skipped}, {"order_as_model_lin", b->orderLin},
                             {"order_as_model_bis", b->orderBis}, {"max_lattice_dev", b->maxDev}};
         scenarios += b->replayed;
     }
@@ -792,6 +884,7 @@ static int replay(const std::string &path, const std::string &only)
               {"failure_keys", fk},
               {"first_failures", firsts},
               {"bindings", per},
+              {"families", families},
               {"vacuity",
                json{{"motion_valid", V.motionValid}, {"lin_fail_in_scan", V.linFailScan}, {"lin_fail_at_end", V.linFailEnd},
                     {"bis_fail_at_end", V.bisFailEnd}, {"bis_fail_at_mid", V.bisFailMid}, {"nd0", V.nd0}, {"nd1", V.nd1},
@@ -840,8 +933,8 @@ static int segcount(const std::string &path)
             *sp->getValueAddressAtIndex(y, 0) = (double)a["d"].get<int>();
             unsigned got = sp->validSegmentCount(x, y), back = sp->validSegmentCount(y, x);
             if (got != exp || back != exp)
-                F.add("segcount|single", "validSegmentCount is " + std::to_string(got) + "/" + std::to_string(back) +
-                                             ", expected " + std::to_string(exp), cs, "segcount");
+                F.add("r1", "validSegmentCount", "factor*ceil(d/L)", "validSegmentCount is " + std::to_string(got) + "/" + std::to_string(back) +
+                                                      ", expected " + std::to_string(exp), cs);
             sp->freeState(x);
             sp->freeState(y);
             ++single;
@@ -865,8 +958,8 @@ static int segcount(const std::string &path)
             *sp->getValueAddressAtIndex(y, 1) = (double)c["d"].get<int>();
             unsigned got = sp->validSegmentCount(x, y);
             if (got != exp)
-                F.add("segcount|compound", "compound validSegmentCount is " + std::to_string(got) + ", expected " +
-                                               std::to_string(exp), cs, "segcount");
+                F.add("r1xr1", "compound-validSegmentCount", "max-of-components", "compound validSegmentCount is " + std::to_string(got) +
+                                                            ", expected " + std::to_string(exp), cs);
             // observation only: a factor set on the compound itself does not reach the components
             sp->setValidSegmentCountFactor(2);
             if (exp > 0 && sp->validSegmentCount(x, y) == got)
@@ -885,6 +978,7 @@ static int segcount(const std::string &path)
     std::cout << "SUMMARY "
               << json{{"cases", cases}, {"scenarios", cases}, {"single", single}, {"compound", compound},
                       {"compound_own_factor_ignored", compoundOwnFactorIgnored}, {"failures", F.total()},
+                      {"families", json{{"validSegmentCount", json::array({"r1"})}, {"compound-validSegmentCount", json::array({"r1xr1"})}}},
                       {"failure_keys", fk}, {"first_failures", firsts}}
                      .dump()
               << std::endl;
